@@ -498,3 +498,14 @@ def run(R, ctx):
     append_shift(R, ctx)
     moved_comments(R, ctx)
     line_totals(R, ctx)
+    # a lowering rule that duplicates an operand strips the copy's trivia (decided with C06.dup's evaluation)
+    from .. import report
+    from . import c06
+    scratch = report.Report("C06", R.tier)
+    c06.dup(scratch, ctx, trivia_rid="C04.copy-trivia")
+    for rr, text in scratch.rules.items() if hasattr(scratch, "rules") and isinstance(scratch.rules, dict) else []:
+        if rr == "C04.copy-trivia":
+            R.rule(rr, text)
+    for o in scratch.obligations:
+        if o["rule"] == "C04.copy-trivia":
+            R.ob(o["rule"], o["key"], o["ok"], o.get("where", ""), o.get("detail", ""))
